@@ -46,6 +46,9 @@ def _run(e, t, op, ctx, style):
             tx.delete_files([ctx["victim"]])
         elif op == "expire":
             tx.expire_snapshots(ctx["cutoff"])
+        elif op == "append_expire":
+            tx.append_data([{"a": 100}])
+            tx.expire_snapshots(ctx["cutoff"])
         else:
             raise ValueError(op)
 
@@ -162,12 +165,94 @@ def faulty(sp, rig="L", cas=True, op="append", kind="pre", style="ctx", double=F
         sp.require(rows == (obs.rows or []) and rows2 == sorted(rows + [999]), f"{tag}: follow-up rows {rows} -> {rows2}", {"sig": f"{tag}:followup-rows"})
 
 
+def reuse(sp, rig="S", kind1="post", kind2="pre"):
+    """ONE Transaction object used for two commits in a row (begin / append / commit, then begin / append / commit again), a fault in
+    each: whatever the first commit's fate (clean failure, ambiguous, interrupted after the pointer flip), the second one's failure
+    handling must not touch files the first one made reachable."""
+    with Env(sp, rig=rig, clock="tick") as e:
+        w = e.world
+        t, pre, ctx = setup(e, "append", 2)
+
+        def mk_for(kind):
+            def mk(label, info):
+                if kind == "ki":
+                    return KeyboardInterrupt()
+                if rig == "L":
+                    return OSError(errno.ENOSPC, "injected: no space left on device")
+                if kind == "post":
+                    return cerr("RequestTimeout", "Op", 500)
+                return cerr("AccessDenied", "Op", 403)
+            return mk
+
+        from vf.props.common import HINT
+
+        def when_for(kind, only_pointer=False):
+            def when(label, info):
+                if only_pointer and not (info.get("path") or info.get("key") or "").endswith(HINT):
+                    return False
+                return label.endswith("<") if kind == "post" else not label.endswith("<")
+            return when
+        k1 = sp.fresh_int("fault1_at", 0, 400)
+        k2 = sp.fresh_int("fault2_at", 0, 400)
+        tx = t.new_transaction()
+        outcomes = []
+        for n, (k, kind, row) in enumerate(((k1, kind1, 100), (k2, kind2, 200))):
+            # (the first fault is placed on the calls that touch the POINTER - where a commit's fate becomes ambiguous / interrupted past
+            #  the commit point; every position of the second commit is explored)
+            st = fault_at(w, w.step + 1 + k, mk_for(kind), when=when_for(kind, only_pointer=(n == 0)))
+            try:
+                tx.begin()
+                tx.append_data([{"a": row}])
+                tx.commit()
+                outcomes.append("ok")
+            except BaseException as ex:  # noqa
+                from vf.symx import PathAbort
+                from vf.rigs.world import Killed
+                if isinstance(ex, (PathAbort, Killed)):
+                    raise
+                outcomes.append(type(ex).__name__)
+                try:
+                    tx.rollback()
+                except Exception:  # noqa
+                    pass
+            w.callbacks.clear()
+            sp.note(f"fault{n + 1}", f"{st['label']} {(st['info'] or {}).get('path') or (st['info'] or {}).get('key') or ''}" if st["fired"] else "no fault")
+        sp.note("outcomes", outcomes)
+        sp.reach("after-op")
+        tag = f"{rig}:reuse:{kind1}+{kind2}"
+        try:
+            obs = summarize(e)
+        except reader.Unreadable as ex:
+            sp.require(False, f"{tag}: outcomes {outcomes}: table unreadable: {ex}", {"sig": f"{tag}:unreadable"})
+            return
+        err = all_snapshots_readable(obs)
+        sp.require(err is None, f"{tag}: outcomes {outcomes}: a file referenced by a retained snapshot is gone: {err}", {"sig": f"{tag}:referenced-file-missing"})
+        extra = sorted(r for r in (obs.rows or []) if r not in (pre.rows or []))
+        sp.require(sorted(r for r in obs.rows if r in pre.rows) == sorted(pre.rows) and all(r in (100, 200) for r in extra) and len(set(extra)) == len(extra),
+                   f"{tag}: outcomes {outcomes}: rows {obs.rows} (before: {pre.rows})", {"sig": f"{tag}:rows"})
+        for oc, row in zip(outcomes, (100, 200)):
+            if oc == "ok":
+                sp.require(row in obs.rows, f"{tag}: the commit of row {row} reported success but the row is not in the table", {"sig": f"{tag}:acked-row-missing"})
+        if rig == "S":
+            w.clock.advance(61_000)
+        try:
+            t2 = e.table()
+            rows = sorted(r["a"] for r in t2.scan())
+            t2.append_records([{"a": 999}])
+            rows2 = sorted(r["a"] for r in t2.scan())
+        except Exception as ex:  # noqa
+            sp.require(False, f"{tag}: outcomes {outcomes}: the table is no longer readable/writable: {type(ex).__name__}: {ex}",
+                       {"sig": f"{tag}:not-writable-after:{type(ex).__name__}"})
+            return
+        sp.require(rows == obs.rows and rows2 == sorted(rows + [999]), f"{tag}: follow-up rows {rows} -> {rows2}", {"sig": f"{tag}:followup-rows"})
+
+
 def obligations(tier):
     obs = []
     T = 300 if tier == "quick" else 1500
     if tier == "quick":
         cfgs = []
-        for op in ("append", "delete", "expire", "delsnap_cur"):
+        for op in ("append", "delete", "expire", "append_expire", "delsnap_cur"):
             cfgs.append(("L", True, op, "pre", "ctx"))
         for op in ("append", "replace"):
             cfgs.append(("L", True, op, "ki", "ctx"))
@@ -180,7 +265,7 @@ def obligations(tier):
     else:
         for rig, cas in (("L", True), ("S", True), ("S", False)):
             kinds = ["pre", "ki", "se"] if rig == "L" else ["pre", "trans", "post", "ki", "se"]
-            for op in ("append", "append2", "delete", "replace", "expire", "delsnap_cur"):
+            for op in ("append", "append2", "delete", "replace", "expire", "append_expire", "delsnap_cur"):
                 for kind in kinds:
                     for style in ("ctx", "explicit"):
                         if op == "delsnap_cur" and style == "explicit":
@@ -188,6 +273,11 @@ def obligations(tier):
                         obs.append(_ob(rig, cas, op, kind, style, T=T))
         for rig, cas, op, kind in (("L", True, "append", "pre"), ("S", True, "append", "post"), ("S", True, "append", "pre"), ("L", True, "replace", "ki")):
             obs.append(_ob(rig, cas, op, kind, "ctx", T=T, double=True))
+    for rig, k1, k2 in ((("S", "post", "pre"), ("L", "ki", "pre")) if tier == "quick" else
+                        (("S", "post", "pre"), ("S", "ki", "pre"), ("S", "post", "post"), ("S", "pre", "pre"), ("L", "ki", "pre"), ("L", "pre", "pre"), ("L", "ki", "ki"))):
+        obs.append(Ob(f"reuse.{rig}.{k1}+{k2}", "vf.props.c04:reuse", {"rig": rig, "kind1": k1, "kind2": k2, "_must_reach": ["after-op"], "_sample_every": 200},
+                      timeout=T, bounds=f"backend {rig}: one Transaction object reused for two commits, fault kind {k1} at every call on the pointer during the first and "
+                                        f"fault kind {k2} at every position of the second", weight=8))
     return obs
 
 
